@@ -306,3 +306,12 @@ Qed.
 
 Theorem etag_coll_identifies : forall c c', EtColl c = EtColl c' -> c = c'.
 Proof. intros c c' H. inversion H. reflexivity. Qed.
+
+Theorem put_then_resolves : forall cfg pol s p ct b im inm s' o,
+  store_inv s ->
+  do_put cfg pol s p ct b im inm = (s', (S201, PEtag (EtItem o))) ->
+  exists pc', resolve s' p = NItem pc' o.
+Proof.
+  intros cfg pol s p ct b im inm s' o Hs H.
+  destruct (put_item_effect _ _ _ _ _ _ _ _ _ _ Hs H) as (pc & _ & Hr & _). eexists. exact Hr.
+Qed.
